@@ -36,6 +36,9 @@ class FixFloatEqualityTransformer(
                         else cst.UnaryOperation(
                             operator=cst.Not(),
                             expression=isclose_call,
+                            # `(a != 0.1) * 3` must not become `not math.isclose(...) * 3`
+                            lpar=original_node.lpar,
+                            rpar=original_node.rpar,
                         )
                     )
         return updated_node
